@@ -50,24 +50,26 @@ fn is_symbol_char<'a>(i: OffsetStrIter<'a>) -> Result<OffsetStrIter<'a>, u8> {
 fn escapequoted<'a>(input: OffsetStrIter<'a>) -> Result<OffsetStrIter<'a>, String> {
     // loop until we find a " that is not preceded by \.
     // Collapse all \<char> to just char  for escaping exept for \n \r \t and \@.
-    let mut frag = String::new();
+    // Accumulate the raw bytes. Pushing each byte `as char` would re-encode
+    // every byte of a multi-byte UTF-8 sequence as a character of its own.
+    let mut frag: Vec<u8> = Vec::new();
     let mut escape = false;
     let mut _input = input.clone();
     while let Some(&c) = _input.next() {
         if escape {
             match c as char {
                 'n' => {
-                    frag.push('\n');
+                    frag.push(b'\n');
                     escape = false;
                     continue;
                 }
                 'r' => {
-                    frag.push('\r');
+                    frag.push(b'\r');
                     escape = false;
                     continue;
                 }
                 't' => {
-                    frag.push('\t');
+                    frag.push(b'\t');
                     escape = false;
                     continue;
                 }
@@ -82,10 +84,18 @@ fn escapequoted<'a>(input: OffsetStrIter<'a>) -> Result<OffsetStrIter<'a>, Strin
         } else if c == b'"' && !escape {
             // Bail if this is an unescaped "
             // we exit here.
-            return Result::Complete(_input, frag);
+            // The input is a &str and we only dropped or replaced ASCII bytes
+            // so what we accumulated is still valid UTF-8.
+            return match String::from_utf8(frag) {
+                Ok(frag) => Result::Complete(_input, frag),
+                Err(_) => Result::Fail(Error::new(
+                    "Invalid UTF-8 in quoted string".to_string(),
+                    Box::new(_input.clone()),
+                )),
+            };
         } else {
             // we accumulate this character.
-            frag.push(c as char);
+            frag.push(c);
             escape = false; // reset our escaping sentinel
         }
     }
